@@ -51,3 +51,14 @@ for p in list(NOT_APPLICABLE):
         del NOT_APPLICABLE[p]
 for e in ENGINES:
     e['serves_properties'] = sorted(CHECKS)
+
+_c('C11', 'exploration',
+   'exhaustive configuration-cell enumeration on the real servers in a virtual world, with a dynamic upgrade probe',
+   'Every cell of the timing, upgrade, cookie and connect-outcome grids (full product on a reduced grid at the thorough tier) is opened on the real Server (WSGI) and AsyncServer (ASGI), over polling and WebSocket, and the OPEN packet, Set-Cookie header, 401 answers and the inertness of rejected ids are compared with the reference; an advertised upgrade is actually performed.',
+   'Gateways and the WebSocket driver of the threaded server are contract-level fakes; cookie clause judged on polling opens only.',
+   'DESIGN.md 5 C11')
+for p in list(NOT_APPLICABLE):
+    if p in CHECKS:
+        del NOT_APPLICABLE[p]
+for e in ENGINES:
+    e['serves_properties'] = sorted(CHECKS)
